@@ -463,12 +463,13 @@ def protected_inside_context(cx, N):
 
 
 @harness("C04", "apply_copy_inside_context",
-         quick=[dict(touched=True), dict(touched=False)], thorough=[dict(touched=t, N=n) for t in (True, False) for n in (2, 3)],
+         quick=[dict(touched=True), dict(touched=False)], thorough=[dict(touched=True), dict(touched=False)],
          functions=FUNCS + ["quantarhei/qm/liouvillespace/superoperator.py:SuperOperator.apply"],
-         bound="N=2 (thorough 3): inside eigenbasis_of(H) a superoperator is applied to a density matrix with copy=True "
+         bound="N=2: inside eigenbasis_of(H) a superoperator is applied to a density matrix with copy=True "
                "(the density matrix already read inside the context, or not): the returned object is, after the "
                "context, readable and equal to the site-basis action; the operands are restored",
-         out="")
+         out="N=3 (81 complex tensor elements under a symbolic O(3) rotation, there and back) did not finish in the "
+             "25 min instance limit and is not part of any tier")
 def apply_copy_inside_context(cx, touched, N=2):
     import quantarhei as qr
     m, objs, (H, w, S) = setup(cx, N, with_tensor=False)
